@@ -340,8 +340,9 @@ P["C20"] = {
         "the LWE-packing block search computes floor(log2(floor(N^0.33))) and 2^ceil(log2(input_dims)) in f64; the model uses the exact integer definitions (agreement checked by correspondence on every shape run)",
         "cost arithmetic of the block searches is exact in the model (usize overflow needs dimensions beyond 2^20; theorem block_search_sound carries that bound)",
         "BOLT variants: the three helpers are MODELLED (Model/Matmul.lean: encode maps, rotation / spread schedules on slot vectors, decode maps) and compared with the code bit for bit on small degrees "
-        "(bolt_*_encx/encw/enco/run lines); proved about the model: slot actions of the rotations on the column arrangement, the baby steps of bolt_cp, the baby-step/giant-step re-indexing; "
-        "the end-to-end statements over the model (BoltCpStatement, BoltCcCrStatement, BoltCcDcStatement) are NOT proved and are covered by the model-vs-code comparison plus the end-to-end runs (labelled tests)",
+        "(bolt_*_encx/encw/enco/run lines); proved about the model: the end-to-end statements BoltCpStatement, BoltCcCrStatement, BoltCcDcStatement (encode -> rotation / sum / spread schedule -> "
+        "decode = x.w in any commutative ring, for every helper the model's constructors accept with N a power of two below 2^64; bolt_cc_dc needs r > 0: the constructor accepts r = 0 but multiply "
+        "refuses, in the model and in the code - line bolt_ccdc_r0); model = code is the sampled correspondence",
         "CKKS variants of the helpers share the index maps (the code is textually the same up to the encoder call); only the BFV paths are executed here",
     ],
 }
